@@ -86,6 +86,9 @@ def run(ctx: Ctx) -> int:
     rng = random.Random(ctx.seed + 17)
     from simaple.gear.gear_type import GearType
     repo, metas, unloadable = H.load_repository()
+    # "for every gear in the shipped database": a gear that cannot even be loaded has no star-force bonus at all
+    findings_unloadable = [{"what": "a gear of the shipped database cannot be loaded, so no star-force bonus is defined for it",
+                            "gear": gid, "error": err} for gid, err in unloadable[:5]]
     tables = meta["tables"] if meta else {}
     bounds = sorted({r[0] for t in tables.values() for r in t} | {0, 70, 71, 80, 95, 108, 110, 111, 118, 120, 128, 130, 138, 140, 148, 150, 158, 198})
     full_db = ctx.thorough or bool(ctx.broken)
@@ -103,7 +106,7 @@ def run(ctx: Ctx) -> int:
     hyp_bad = [m.id for m in metas if m.req_level < 0 or any(v < 0 for v in m.base_stat.model_dump().values())
                or any(v != int(v) for v in m.base_stat.model_dump().values())]
 
-    findings = []
+    findings = list(findings_unloadable)
     cases = {}            # dedupe key -> (gen term, ref term, description)
     hist = collections.Counter()
     evaluations = 0
